@@ -13,6 +13,7 @@ import (
 	"os/exec"
 	"path/filepath"
 	"regexp"
+	"sort"
 	"strconv"
 	"strings"
 	"sync"
@@ -46,6 +47,9 @@ type Workspace struct {
 	Overlay *instr.Result
 	mu      sync.Mutex
 	bins    map[string]string
+
+	lockEdges map[string]*LockEdge
+	lockAcqs  uint64
 }
 
 func NewWorkspace() (*Workspace, error) {
@@ -169,6 +173,64 @@ type Proc struct {
 	waitErr error
 	HTTP    *http.Client
 	RTBase  string // host:port of the verifrt control listener of a real SUT
+	locks   bool   // lock-order monitor on: the edges are collected into the workspace when the process is killed
+	ws      *Workspace
+}
+
+// LockEdge: some goroutine asked for lock class To while holding class From.
+type LockEdge struct {
+	From     string `json:"from"`
+	To       string `json:"to"`
+	FromSite string `json:"from_site"`
+	ToSite   string `json:"to_site"`
+	Count    int    `json:"count"`
+}
+
+// LockGraph returns the lock-order edges collected from all processes that
+// ran with LabOpts.Locks, and the number of acquisitions they reported.
+func (w *Workspace) LockGraph() ([]LockEdge, uint64) {
+	w.mu.Lock()
+	defer w.mu.Unlock()
+	var out []LockEdge
+	for _, e := range w.lockEdges {
+		out = append(out, *e)
+	}
+	sort.Slice(out, func(i, j int) bool { return out[i].From+out[i].To < out[j].From+out[j].To })
+	return out, w.lockAcqs
+}
+
+func (p *Proc) collectLocks() {
+	if !p.locks || p.ws == nil || !p.Alive() {
+		return
+	}
+	s, err := p.RT("op=locks")
+	if err != nil {
+		return
+	}
+	var g struct {
+		Acquisitions uint64     `json:"acquisitions"`
+		Edges        []LockEdge `json:"edges"`
+	}
+	if json.Unmarshal([]byte(s), &g) != nil {
+		return
+	}
+	w := p.ws
+	w.mu.Lock()
+	defer w.mu.Unlock()
+	if w.lockEdges == nil {
+		w.lockEdges = map[string]*LockEdge{}
+	}
+	w.lockAcqs += g.Acquisitions
+	for _, e := range g.Edges {
+		k := e.From + " -> " + e.To
+		if old := w.lockEdges[k]; old != nil {
+			old.Count += e.Count
+		} else {
+			c := e
+			w.lockEdges[k] = &c
+		}
+	}
+	p.locks = false
 }
 
 type LabOpts struct {
@@ -178,6 +240,7 @@ type LabOpts struct {
 	RT                string // initial verifrt mode: "", "jitter", "sched"
 	Env               []string
 	Race              bool
+	Locks             bool // lock-order monitor (plain builds: its bookkeeping would add happens-before edges)
 	Name              string
 	VLimitKB          int // address-space limit of the child (plain builds only; 0 = none)
 }
@@ -262,6 +325,10 @@ func (w *Workspace) StartLab(bin string, o LabOpts) (*Proc, error) {
 	case "sched":
 		p.RT("op=mode&v=2")
 	}
+	if o.Locks {
+		p.RT("op=locktrack&v=1")
+		p.locks, p.ws = true, w
+	}
 	return p, nil
 }
 
@@ -288,6 +355,7 @@ func (p *Proc) ExitInfo() string {
 }
 
 func (p *Proc) Kill() {
+	p.collectLocks()
 	if p.Cmd != nil && p.Cmd.Process != nil {
 		p.Cmd.Process.Kill()
 		<-p.done
